@@ -222,6 +222,8 @@ func (e *c14Env) runGsub(s, p []byte, repl []interface{}, n interface{}) []inter
 	switch repl[0].(string) {
 	case "s":
 		rv = lua.LString(c14Bytes(repl[1]))
+	case "n":
+		rv = lua.LNumber(tokInt(repl[1]))
 	default:
 		tb := L.NewTable()
 		for _, kv := range repl[1].([]interface{}) {
@@ -265,6 +267,8 @@ func (e *c14Env) runCase(c map[string]interface{}) []interface{} {
 		return e.runMatch(s, p, c["i"])
 	case "gmatch":
 		return e.runGmatch(s, p)
+	case "gmatchiter":
+		return e.runGmatchIter(s, c14Bytes(c["s2"]), p, tokInt(c["k"]), tokInt(c["mode"]))
 	case "gsub":
 		return e.runGsub(s, p, c["repl"].([]interface{}), c["n"])
 	}
@@ -805,6 +809,15 @@ func c14Classify(e *c14Env, rec map[string]interface{}, exp, obs []interface{}) 
 		}
 		return 0, false
 	}
+	if fn == "gmatchiter" && ok == "panic" {
+		return "C14:gmatch:iterator-panics-after-exhaustion"
+	}
+	if fn == "gsub" && ok == "err" && ek != "err" {
+		// only the type rejection of the argument itself, not an error of the pattern
+		if repl := rec["repl"].([]interface{}); repl[0] == "n" && len(obs) > 1 && strings.Contains(fmt.Sprint(obs[1]), "bad argument #3") {
+			return "C14:gsub:number-replacement-rejected"
+		}
+	}
 	if ok == "panic" {
 		if ft["backref-pos"] {
 			return "C14:pattern:backref-to-position-capture"
@@ -819,6 +832,10 @@ func c14Classify(e *c14Env, rec map[string]interface{}, exp, obs []interface{}) 
 	}
 	// function-level classes whose signature does not depend on the pattern
 	switch fn {
+	case "gmatchiter":
+		if ok == "err" && ek != "err" && tokInt(rec["mode"]) == 0 {
+			return "C14:gmatch:iterator-needs-state-argument"
+		}
 	case "match":
 		if ok == "none" && (ek == "nil" || ek == "err") {
 			return "C14:match:no-match-returns-no-value"
@@ -1164,4 +1181,58 @@ func (e *c14Env) escDiffers(x byte) bool {
 	}
 	c14EscCache.Store(x, d)
 	return d
+}
+
+// string.gmatch's iterator driven by hand: two iterators over s and s2 (same
+// pattern) are created first and then stepped alternately k times each.
+// mode 0: f() (Lua 5.1: the closure carries its own state); mode 1: f(st)
+// with st = the second value gmatch returned (nil in Lua 5.1, ignored there).
+// -> ["i", [calls of A], [calls of B]], a call being ["v", values] or ["end"]
+func (e *c14Env) runGmatchIter(s, s2, p []byte, k, mode int) []interface{} {
+	gm := e.L.GetField(e.L.GetGlobal("string"), "gmatch")
+	type it struct {
+		f, st lua.LValue
+		out   []interface{}
+	}
+	its := []*it{}
+	for _, subj := range [][]byte{s, s2} {
+		rets, bad := e.call(gm, lua.LString(subj), lua.LString(p))
+		if bad != nil {
+			return bad
+		}
+		if len(rets) == 0 {
+			return c14Odd(rets)
+		}
+		x := &it{f: rets[0], st: lua.LNil, out: []interface{}{}}
+		if len(rets) > 1 {
+			x.st = rets[1]
+		}
+		its = append(its, x)
+	}
+	for i := 0; i < k; i++ {
+		for _, x := range its {
+			args := []lua.LValue{}
+			if mode == 1 {
+				args = append(args, x.st)
+			}
+			rets, bad := e.call(x.f, args...)
+			if bad != nil {
+				return bad
+			}
+			n := len(rets)
+			for n > 0 && rets[n-1] == lua.LNil {
+				n--
+			}
+			if n == 0 {
+				x.out = append(x.out, []interface{}{"end"})
+				continue
+			}
+			vs := []interface{}{}
+			for _, r := range rets[:n] {
+				vs = append(vs, c14Val(r))
+			}
+			x.out = append(x.out, []interface{}{"v", vs})
+		}
+	}
+	return []interface{}{"i", its[0].out, its[1].out}
 }
